@@ -170,12 +170,16 @@ Proof.
     destruct (i =? nb) eqn:Y1; [|exact Lo].
     assert (i = nb) by lia. subst i. fold nv in Lo. fold mv in Lo. fold mv. lia.
   - intros i Hi. rewrite sel_put by lia. destruct (i =? nb) eqn:Y1; [lia|]. apply Mk; exact Hi.
-  - intros U HU i Hi. rewrite sel_put by lia. assert (Q := Le U HU i Hi).
+  - intros dec U Hm HU i Hi Hib. rewrite sel_put by lia. assert (Q := Le dec U Hm HU i Hi Hib).
     destruct (i =? nb) eqn:Y1; [|exact Q].
     assert (i = nb) by lia. subst i.
-    assert (P2 := proj2 HU cur stride ltac:(lia) Hint Hin). fold nb in P2.
-    assert (Qc := Le U HU cur ltac:(lia)).
-    assert (M := Mk (nb + S) ltac:(lia)). fold mv in M. lia.
+    assert (P2 := proj2 HU cur stride ltac:(lia) Hint Hin Inb). fold nb in P2.
+    assert (Qc := Le dec U Hm HU cur ltac:(lia) Hint).
+    assert (M := Mk (nb + S) ltac:(lia)). fold mv in M. rewrite <- M in P2.
+    assert (Vm := Vk (nb + S) ltac:(lia)). fold mv in Vm.
+    assert (D1 : dec newv <= dec mv) by (apply Hm; lia).
+    assert (D2 : dec newv <= dec (sel (vals s) cur)) by (apply Hm; lia).
+    lia.
 Qed.
 
 (* the `for i in range(nstrides)` loop *)
@@ -269,7 +273,7 @@ Proof.
   - intros i Hi. apply (P1 i Hi).
   - intros i Hi. destruct (P2 i Hi) as [_ Q]. lia.
   - intros i Hi. reflexivity.
-  - intros U [HU _] i Hi. apply HU; exact Hi.
+  - intros dec U _ [HU _] i Hi Hib. apply HU; assumption.
 Qed.
 
 Lemma stride_ok_b_sound g st : stride_ok_b g st = true -> stride_ok g st.
@@ -414,9 +418,10 @@ Qed.
 Theorem loop_least g K v0 strides : geom_ok g -> Forall (stride_ok g) strides ->
   forall fuel cur s s', Inv g K strides v0 s -> -1 <= cur < 2 * gS g ->
   loop fuel (gS g) strides cur s = Ok s' ->
-  forall U, flat_postfixed g strides v0 U -> forall i, 0 <= i < gS g -> sel (vals s') i <= U i.
+  forall dec U, mono_on K dec -> flat_postfixed g strides v0 dec U ->
+  forall i, 0 <= i < gS g -> interior_b g i = true -> dec (sel (vals s') i) <= U i.
 Proof.
-  intros G Hst fuel cur s s' I Hcur E U HU i Hi.
+  intros G Hst fuel cur s s' I Hcur E dec U Hm HU i Hi Hib.
   assert (L := loop_safe g K v0 strides G Hst fuel cur s I Hcur). rewrite E in L. destruct L as [I' _].
-  exact (i_le _ _ _ _ _ I' U HU i Hi).
+  exact (i_le _ _ _ _ _ I' dec U Hm HU i Hi Hib).
 Qed.
